@@ -238,7 +238,11 @@ class Model(object):
             crit = Fraction(repr(self.flatcrit))
             tot = sum(hl)
             exact = all(Fraction(h * len(hl), tot) >= crit for h in hl)
-            if exact != flat:
+            # equivalent formulations an implementation may use; all must agree with exact arithmetic,
+            # otherwise the outcome hinges on float rounding and is not asserted
+            alt1 = all(h >= self.flatcrit * mean for h in hl)
+            alt2 = all(h * len(hl) >= self.flatcrit * tot for h in hl)
+            if not (exact == flat == alt1 == alt2):
                 info["ambiguous"] = True
             if any(Fraction(h * len(hl), tot) == crit for h in hl):
                 info["tie"] = True
